@@ -16,11 +16,21 @@ Cond_Harness_Walk == IsF => Ev.walkOK
 Cond_C19_Same == (IsF /\ Ev.e = "nil" /\ Ev.walkOK) => SameEntries(Ev.desc, Ev.stored)
 Cond_C19_Siblings == (IsF /\ Ev.e = "nil") => SiblingsOK(Ev.desc)
 Cond_C19_Paths == (IsF /\ Ev.e = "nil" /\ Ev.composed) => PathsComposed(Ev.desc)
+\* the library's own read-back helper (testutil.ToDirEntryFrom from the returned root, over a link system with the
+\* UnixFS reifier) yields the described tree, and its comparison helper accepts the pair in both directions
+Cond_C19_ReadBack == (IsF /\ Ev.e = "nil") =>
+    /\ Ev.rb = "ok"
+    /\ SameEntries(Ev.desc, Ev.tde)
+    /\ (Ev.composed \/ Ev.gen = "file") => (SamePaths(Ev.desc, Ev.tde) /\ Ev.cmp = "pass")
+\* beyond C19: the comparison helper rejects a description with one thing wrong
+Cond_X_CompareDetects == (IsF /\ Ev.e = "nil" /\ Ev.rb = "ok") => \A k \in 1 .. Len(Ev.neg) : Ev.neg[k] = "fail"
 Chk(nm, c) == c \/ PrintT(<<"VIOL", nm, l - 1>>)
 Inv_NoPanic == Chk("Inv_NoPanic", Cond_NoPanic)
 Inv_Harness_Walk == Chk("Inv_Harness_Walk", Cond_Harness_Walk)
 Inv_C19_Same == Chk("Inv_C19_Same", Cond_C19_Same)
 Inv_C19_Siblings == Chk("Inv_C19_Siblings", Cond_C19_Siblings)
 Inv_C19_Paths == Chk("Inv_C19_Paths", Cond_C19_Paths)
+Inv_C19_ReadBack == Chk("Inv_C19_ReadBack", Cond_C19_ReadBack)
+Inv_X_CompareDetects == Chk("Inv_X_CompareDetects", Cond_X_CompareDetects)
 Alias == [l |-> l]
 =============================================================================
